@@ -6,6 +6,8 @@ import GwModel.InjectFile
 import GwModel.Http
 import GwModel.CacheRun
 import GwModel.Gen.Facts
+import GwModel.Insert
+import GwModel.Point
 /-! gwdrv: one JSON object per line in, one per line out (DESIGN §2.2). Core + Lean.Data.Json only. -/
 open Lean Codec
 
@@ -45,10 +47,73 @@ def encEntry : Http.Entry → Json
   | .data => .str "data"
   | .errors => .str "errors"
 
+/-! stitching (`Ins`): object keys are interned to `Nat` -/
+partial def decIns (j : Json) : StateM Intern Ins.J :=
+  match j with
+  | .null => pure .null
+  | .arr xs => do
+    let ys ← xs.toList.mapM decIns
+    pure (.arr ys)
+  | .obj _ => do
+    let mut acc : Ins.KVs := []
+    for (k, v) in kvs j do
+      let n ← Intern.intern k
+      let w ← decIns v
+      acc := Ins.put n w acc
+    pure (.obj acc)
+  | other => pure (.leaf other.compress)
+
+partial def encIns (st : Intern) : Ins.J → Json
+  | .null => .null
+  | .leaf s => (Json.parse s).toOption.getD (.str s)
+  | .arr xs => .arr (xs.map (encIns st)).toArray
+  | .obj kv => Json.mkObj (kv.map fun (k, v) => (st.name k, encIns st v))
+
+/-- a path of point strings; `none` when `executorGetPointData` fails on one of them -/
+def decPath (ps : List String) : StateM Intern (Option (List Ins.Pt)) := do
+  let mut out : List Ins.Pt := []
+  for p in ps do
+    match Pt.parsePoint p.toList with
+    | none => return none
+    | some d =>
+      let n ← Intern.intern (String.ofList d.field)
+      out := out ++ [{ key := n, idx := d.index }]
+  return some out
+
+/-- {"target": {...}, "msgs": [{"path": ["users:0", "photos"], "value": {...}}, ...]}: apply the messages in order;
+    answers the final value, or the index of the first message the model rejects -/
+def runInsert (j : Json) : Json :=
+  let act : StateM Intern Json := do
+    let target ← decIns ((getObj? j "target").getD (Json.mkObj []))
+    let mut cur : Ins.J := target
+    let mut i : Nat := 0
+    for m in getArr j "msgs" do
+      let v ← decIns ((getObj? m "value").getD .null)
+      match (← decPath (strList m "path")) with
+      | none => return Json.mkObj [("error_at", .num (JsonNumber.fromNat i))]
+      | some path =>
+        match Ins.apply (some cur) path v with
+        | none => return Json.mkObj [("error_at", .num (JsonNumber.fromNat i))]
+        | some nxt => cur := nxt
+      i := i + 1
+    let st ← MonadState.get
+    return Json.mkObj [("result", encIns st cur)]
+  (act.run {}).1
+
+def runPoint (j : Json) : Json :=
+  let p := (getStr j "point").toList
+  match Pt.parsePoint p with
+  | none => Json.mkObj [("error", .bool true), ("list", .bool (Pt.isListElement p))]
+  | some d => Json.mkObj [("field", .str (String.ofList d.field)),
+      ("index", match d.index with | some i => .num (JsonNumber.fromNat i) | none => .num (JsonNumber.fromInt (-1))),
+      ("id", .str (String.ofList d.id)), ("list", .bool (Pt.isListElement p))]
+
 def handle (j : Json) : Json :=
   match getStr j "op" with
   | "mono" => Json.mkObj [("data", encVal (Mono.mono (decCase j)))]
   | "merge" => runMerge j
+  | "insert" => runInsert j
+  | "point" => runPoint j
   | "intro" => runIntro j
   | "cache" =>
     -- plans are identified by the text they were planned from
